@@ -46,6 +46,7 @@ Definition with_field (st : pstate) (f : cval) : pstate :=
   mkPState (ps_kind st) (ps_tagstr st) (ps_tagval st) (ps_required st) (ps_validate st) (Some f).
 
 Section Pipeline.
+  Variable fx : bool.                           (* variant of the ${} callback: true = repair D-C17g (Strconv.format_cfg) *)
   Variable cfg : bytes -> cval.                 (* Configure.Get *)
   Variable budget : option nat.                 (* substitution budget of ReplaceAllContent (D-C16) *)
   Variable eval : bytes -> res cval.            (* expr.Compile + expr.Run(program, nil) *)
@@ -63,7 +64,7 @@ Section Pipeline.
   Definition stage_quote (st : pstate) : pres :=
     match find_first b_dollar (ps_tagstr st) with
     | None => POk st
-    | Some _ => of_outcome EQuote st (replace_all_content b_dollar (resolve cfg) budget 0 (ps_tagstr st))
+    | Some _ => of_outcome EQuote st (replace_all_content b_dollar (resolve fx cfg) budget 0 (ps_tagstr st))
     end.
 
   (* the callback of the #{} processor: compile, run, FormatAny *)
